@@ -878,7 +878,12 @@ extractSHRT (
     Vec3<T>&           t,
     bool               exc /* = true */)
 {
-    return extractSHRT (mat, s, h, r, t, exc, r.order ());
+    // The Vec3 overload delivers the angles as an XYZ-layout vector, not
+    // in the Euler's own slot order.
+    Vec3<T> xyz;
+    if (!extractSHRT (mat, s, h, xyz, t, exc, r.order ())) return false;
+    r.setXYZVector (xyz);
+    return true;
 }
 
 template <class T>
